@@ -349,6 +349,72 @@ def limits_unit(unit):
                                'per-shard limits %r' % (shards, total, got),
                     'replay': {'engine': 'GRID', 'module': 'props.c13',
                                'clause': 'size-limit-division'}})
+    # aggregate methods outside the data alphabet: tag index, volume, context
+    # manager, named sub-caches - every shard exactly once
+    import sqlite3
+    for shards in (1, 2, 3, 8, 13):
+        path = run.fresh_dir('l')
+        fc = diskcache.FanoutCache(path, shards=shards, disk_min_file_size=8)
+        probs = []
+        try:
+            for i in range(3 * shards):
+                fc.set(i, 'v' * 20, tag='t')
+            dirs = ['%s/%03d' % (path, i) for i in range(shards)]
+
+            def tag_indexes():
+                out = []
+                for d in dirs:
+                    con = sqlite3.connect(os.path.join(d, 'cache.db'))
+                    try:
+                        n = con.execute(
+                            "SELECT COUNT(*) FROM sqlite_master WHERE "
+                            "type = 'index' AND name = 'Cache_tag_rowid'"
+                        ).fetchone()[0]
+                    finally:
+                        con.close()
+                    out.append((n, Snapshot(d).settings['tag_index']))
+                return out
+            fc.create_tag_index()
+            if tag_indexes() != [(1, 1)] * shards or fc.tag_index != 1:
+                probs.append('create_tag_index: per shard (index, setting) '
+                             '= %r' % (tag_indexes(),))
+            fc.drop_tag_index()
+            if tag_indexes() != [(0, 0)] * shards or fc.tag_index != 0:
+                probs.append('drop_tag_index: per shard (index, setting) = '
+                             '%r' % (tag_indexes(),))
+            each = []
+            for d in dirs:
+                c = diskcache.Cache(d)
+                each.append(c.volume())
+                c.close()
+            if fc.volume() != sum(each):
+                probs.append('volume() = %r, shards hold %r'
+                             % (fc.volume(), each))
+            with fc as entered:
+                inside = entered is fc and fc.get(0) == 'v' * 20
+            if not inside or fc.get(1) != 'v' * 20:
+                probs.append('with-block: entered object / use after the '
+                             'block wrong')
+            sub = fc.cache('sub')
+            sub['x'] = 1
+            if not (type(sub) is diskcache.Cache and fc.cache('sub') is sub
+                    and sub.directory == os.path.join(path, 'cache', 'sub')
+                    and len(fc) == 3 * shards):
+                probs.append('cache(name): %r in %r, len(fc)=%d'
+                             % (sub, sub.directory, len(fc)))
+        finally:
+            fc.close()
+            run.drop(path)
+        part['transitions'] += 5
+        part['executions'] += 1
+        part['states'] += 1
+        for msg in probs:
+            part['violations'].append({
+                'signature': {'clause': 'aggregate-not-every-shard'},
+                'message': 'aggregate-not-every-shard: %d shards: %s'
+                           % (shards, msg),
+                'replay': {'engine': 'GRID', 'module': 'props.c13',
+                           'clause': 'aggregate-not-every-shard'}})
     # a setting changed through one handle and re-read through another one
     # (reset(key) without a value) takes effect in every shard of the second
     # handle, exactly as it does for two handles of an unsharded cache
